@@ -3,10 +3,11 @@
    reply, the pausing decoder IS the decoder (nothing ever waits, the pending flag never changes), so
    every theorem about `feed` transfers.  What the dispatched messages and handler states are is
    independent of the pending flag by construction (the handler never sees it).
-   NOT proved (named _partial in Properties.v): the refinement of runB over arbitrary interleavings
-   of segments and write-ready events to "decode of the consumed prefix + unread rest"; it needs the
-   compositionality proof of ProofsB redone for feedb (a stop in mode RPay KExt 0 with a non-empty
-   buffer rest).  That part is covered by the correspondence only (cases with xr= / `w`). *)
+   The general case (arbitrary reply oracles; the refinement of run_b over arbitrary interleavings of
+   segments and write-ready events to "decode of the consumed prefix + unread rest", totality, and
+   "= decode after a final write-ready event") is proved in ProofsJ.v (decoder level) and ProofsK.v
+   (machine level): wait_decoder_refines, write_ready_progress, machine_write_events,
+   machine_write_events_decode, no_fatal_real_write_machine in Properties.v. *)
 From Coq Require Import NArith List Bool Arith Lia.
 From LTV.C03 Require Import ParamsGen Model Proofs ProofsA ProofsB.
 Import ListNotations.
